@@ -222,6 +222,10 @@ MOMNAME = {"x": "px", "y": "py", "rho": "pt", "phi": "phi", "z": "pz", "theta": 
            "t": "E", "tau": "mass"}
 
 
+# field under which vector.zip / vector.Array store a momentum-spelled coordinate
+MOMNAME_INV = {"px": "x", "py": "y", "pt": "rho", "pz": "z", "E": "t", "e": "t", "energy": "t", "M": "tau", "m": "tau", "mass": "tau"}
+
+
 def field_names(flavor, sig):
     n = signames(sig)
     return [MOMNAME[c] for c in n] if flavor == "m" else n
